@@ -162,7 +162,10 @@ class ReqHarness:
 
     def fresh(self) -> ReqWorld:
         w = ReqWorld(self.noise)
-        w.connect_fully()
+        if self.noise:
+            w.connect_fully_split()  # one frame per chunk: this check is about what happens to responses, not about the connect phase
+        else:
+            w.connect_fully()
         w.base_handlers = w.handler_table()
         w.base_waiters = w.waiters() or 0
         w.base_timers = sorted(timer_name(h) for h in w.loop.live_timers())
